@@ -88,8 +88,7 @@ class Fmt(object):
         return self.slices_x * self.slices_y
 
 
-def sequence_header_payload(f, variant=0):
-    """variant != 0 gives a different but individually valid header (frame width changed)."""
+def _sequence_header_bits(f, variant, left, top, scan_custom, aspect_custom, sr_index):
     b = Bits()
     b.uint(f.version)
     b.uint(0)
@@ -97,19 +96,53 @@ def sequence_header_payload(f, variant=0):
     b.uint(f.level)
     b.uint(f.base)
     b.bool(1)  # custom_dimensions_flag
-    b.uint(f.width + (4 * variant))
+    b.uint(f.width + (4 * (variant == 1)))
     b.uint(f.height)
-    for _ in range(4):  # colour-diff format, scan format, frame rate, aspect ratio: base format defaults
-        b.bool(0)
+    b.bool(0)  # colour-difference format: base format default
+    b.bool(scan_custom)
+    if scan_custom:
+        b.uint(0)  # progressive (the base format's value, coded explicitly)
+    b.bool(0)  # frame rate
+    b.bool(aspect_custom)
+    if aspect_custom:
+        b.uint(1)  # pixel aspect ratio preset 1 (1:1)
     b.bool(1)  # custom_clean_area_flag: the clean area must lie within the (tiny) frame
-    b.uint(f.width + (4 * variant))
-    b.uint(f.height)
-    b.uint(0)
-    b.uint(0)
-    b.bool(0)  # signal range
+    b.uint(f.width + (4 * (variant == 1)) - left)
+    b.uint(f.height - top)
+    b.uint(left)
+    b.uint(top)
+    if sr_index:
+        b.bool(1)
+        b.uint(sr_index)  # signal range preset (1: 8 bit full range, 2: 8 bit video)
+    else:
+        b.bool(0)
     b.bool(0)  # colour spec
     b.uint(1 if f.fields else 0)
-    return b.tobytes()
+    return b
+
+
+def sequence_header_payload(f, variant=0):
+    """variant 1 gives a different but individually valid header (frame width changed, i.e. differing early);
+    variant 2 one that differs from variant 0 ONLY IN ITS LAST BITS and has the same length (signal range preset 2
+    instead of 1).  Variant 2 needs a format with f.tail_residue = r (0..7): every header of such a format codes a
+    signal range preset, and clean-area offsets / explicit scan format / aspect ratio are chosen so that the header
+    is r bits longer than a whole number of bytes -- a comparison of repeated headers that is sloppy about the
+    partly used last byte shows only for some r."""
+    r = getattr(f, "tail_residue", None)
+    if r is None:
+        if variant == 2:
+            raise ValueError("variant 2 needs f.tail_residue")
+        return _sequence_header_bits(f, variant, 0, 0, 0, 0, 0).tobytes()
+    for left in (0, 1, 2, 3):
+        for top in (0, 1, 2, 3):
+            for scan_custom in (0, 1):
+                for aspect_custom in (0, 1):
+                    if left >= f.width or top >= f.height:
+                        continue
+                    b = _sequence_header_bits(f, 0 if variant == 2 else variant, left, top, scan_custom, aspect_custom, 2 if variant == 2 else 1)
+                    if len(b.b) % 8 == r:
+                        return b.tobytes()
+    raise ValueError("no header layout with %d bits over a whole byte" % r)
 
 
 def sequence_header_base_defaults(base, version=2, profile="HQ", clean=(16, 16), fields=False, level=0):
